@@ -15,6 +15,9 @@ pub trait Inst {
     /// apply an update of weight `w` to leaf number `leaf` (row-major over the declared values)
     fn update(&self, leaf: usize, via: Via, w: u64) -> bool;
     fn flush(&self);
+    /// histogram leaves of the plain and local forms: start a timer on the leaf and discard it
+    /// (records nothing); false if the form has no timers
+    fn timer_discard(&self, leaf: usize) -> bool;
     fn undeclared_is_none(&self) -> bool;
 }
 pub trait Decl: Sync {
